@@ -896,6 +896,7 @@ def run(tier):
         small = [(opn, {p: v for p, v in nodes.items() if len(p) <= 2}) for opn, nodes in trees[:1]]
         srecs, swhere = tree_to_records(small)
         neg_rejected = 0
+        forest, expect = [], []
         for field in ("g1", "o"):
             cand = [i for i, r in enumerate(srecs) if r["a"] == "c" and r["p"] != 0
                     and srecs[r["p"] - 1]["a"] == "c" and srecs[r["p"] - 1]["r"] == r["r"] and srecs[r["p"] - 1]["k"] == r["k"]
@@ -906,9 +907,17 @@ def run(tier):
             if field == "g1":
                 for c in range(mut[i]["fc"], mut[i]["fc"] + mut[i]["nc"]):
                     mut[c - 1]["g0"] = 999999
-            _, nb = validate_tree(wd, mut, tag=f"neg_{field}", workers=1)
-            v = nb.get(i + 1)
-            if v is not None and ((field == "g1" and not v["okg"]) or (field == "o" and not v["okd"])):
+            off = len(forest)
+            for r in mut:
+                if r["p"] != 0:
+                    r["p"] += off
+                r["fc"] += off
+                forest.append(r)
+            expect.append((off + i + 1, "okg" if field == "g1" else "okd"))
+        _, nb = validate_tree(wd, forest, tag="neg", workers=1)
+        for node, flag in expect:
+            v = nb.get(node)
+            if v is not None and not v[flag]:
                 neg_rejected += 1
         if neg_rejected != 2:
             common.machinery_failure(PROP, "a corrupted digest was accepted by Trace_Rng")
@@ -957,6 +966,7 @@ def run(tier):
         "longest_interleavings_replayed_1_in": sample_mod, "interleavings_model_checked": sum(len(acts) ** j for j in range(1, depth + 1)),
         "interleavings_from_tlc": n_inter, "alphabet": len(acts),
         "recorded_events": len(recs), "events_rejected": len(bad),
+        "calls_whose_output_is_an_exception": sum(1 for _, nodes in trees for (_, _, o) in nodes.values() if o.startswith("exc:")),
         "negative_controls_rejected": neg_rejected + cov.get("hutch_negative_controls_rejected", 0),
         "phase_wall_s": phase,
         "discipline_table": disc, "discipline_other": extra_disc, "randn_restores_global_state": restores,
